@@ -5,27 +5,18 @@ namespace ChibiVerif.Findings.C07
 open ChibiVerif.Host ChibiVerif.Gen.ConstEval ChibiVerif.Spec.Const ChibiVerif.ConstElab ChibiVerif.ConstEvalLemmas
 open ChibiVerif.Props.C07
 
-/-! ## Open finding: `is_const_expr` evaluates the condition of a `?:` that sits in an unevaluated operand -/
+/-! ## Repaired: `is_const_expr` evaluated the condition of a `?:` sitting in an unevaluated operand of `&&` / `||` -/
 
 /-- `1 || (1/0 ? 1 : 2)` -/
 def unevaluatedCond : CExpr :=
   .lor (.lit .i32 1) (.cond (.bin .div (.lit .i32 1) (.lit .i32 0)) (.lit .i32 1) (.lit .i32 2))
 
-/-- it is an integer constant expression with the value 1 (C11 6.6p3 footnote 115: the right operand is not evaluated),
-    the folder agrees … -/
-theorem unevaluatedCond_value :
-    Spec.Const.eval unevaluatedCond = some 1 ∧ eval2 .wrapping noFp (elabE unevaluatedCond) false = .ok 1#64 := by decide
-
-/-- … but `is_const_expr` answers with the division diagnostic (so `int a[1 || (1/0 ? 1 : 2)];` is rejected;
-    gcc accepts it with 1 element).  Hence the full constness statement does not hold for the code as it is. -/
-theorem C07_finding_unevaluated_cond :
-    isConstExpr .wrapping noFp (elabE unevaluatedCond) = .error (.diag "division by zero in a constant expression") := by decide
-
-theorem C07_constness_Statement_fails : ¬ C07_constness_Statement := by
-  intro h
-  have h1 := h noFp unevaluatedCond 1 unevaluatedCond_value.1
-  rw [C07_finding_unevaluated_cond] at h1
-  cases h1
+/-- it is an integer constant expression with the value 1 (C11 6.6p3 footnote 115: the right operand is not evaluated), the
+    folder agrees, and `is_const_expr` now accepts it (`int a[1 || (1/0 ? 1 : 2)];` was rejected with the division
+    diagnostic before the fix; regression witness) -/
+theorem C07_fixed_unevaluated_cond :
+    Spec.Const.eval unevaluatedCond = some 1 ∧ eval2 .wrapping noFp (elabE unevaluatedCond) false = .ok 1#64 ∧
+    isConstExpr .wrapping noFp (elabE unevaluatedCond) = .ok true := by decide
 
 /-! ## The host arithmetic of the folder: C11-defined `unsigned long` expressions execute host-undefined signed overflow -/
 
